@@ -153,16 +153,84 @@ fn js_tokens(v: &serde_json::Value, out: &mut Vec<String>) -> Option<()> {
     match v {
         serde_json::Value::Null => out.push("Z".into()),
         serde_json::Value::String(s) => out.push(format!("S{}", hex(s))),
-        serde_json::Value::Number(n) => out.push(format!("N{}", n.as_i64()?)),
+        serde_json::Value::Number(n) => match n.as_i64() { Some(i) => out.push(format!("N{}", i)), None => { if n.is_u64() { return None; } out.push(format!("X{}", hex(&n.to_string()))) } },
         serde_json::Value::Array(a) => { out.push(format!("A{}", a.len())); for x in a { js_tokens(x, out)?; } }
         serde_json::Value::Object(o) => { let mut ks: Vec<&String> = o.keys().collect(); ks.sort(); out.push(format!("O{}", o.len())); for k in ks { out.push(hex(k)); js_tokens(&o[k], out)?; } }
-        serde_json::Value::Bool(_) => return None,
+        serde_json::Value::Bool(b) => out.push(if *b { "T".into() } else { "F".into() }),
     }
     Some(())
 }
 
+/// a data value in the prefix notation of the model
+fn dvj_spec(v: &DataValue, out: &mut Vec<String>) -> Option<()> {
+    match v {
+        DataValue::Null => out.push("N".into()),
+        DataValue::Bool(b) => out.push(if *b { "T".into() } else { "F".into() }),
+        DataValue::Int(i) => out.push(format!("I{}", i)),
+        DataValue::String(s) => out.push(format!("S{}", hex(s))),
+        DataValue::Float(f) => { if !f.is_finite() { return None; } out.push(format!("X{}", hex(&format!("{:?}", f)))) }
+        // (chrono's serde form: RFC 3339 with `Z` for UTC and as many sub-second digits as needed)
+        DataValue::Datetime(d) => out.push(format!("D{}", hex(&d.to_rfc3339_opts(chrono::SecondsFormat::AutoSi, true)))),
+        DataValue::List(l) => { out.push(format!("L{}", l.len())); for x in l { dvj_spec(x, out)?; } }
+    }
+    Some(())
+}
+
+fn json_paths(v: &serde_json::Value, cur: Vec<String>, out: &mut Vec<Vec<String>>) {
+    match v {
+        serde_json::Value::Object(o) => for (k, x) in o { let mut p = cur.clone(); p.push(k.clone()); out.push(p.clone()); json_paths(x, p, out); },
+        serde_json::Value::Array(a) => for (i, x) in a.iter().enumerate() { let mut p = cur.clone(); p.push(i.to_string()); json_paths(x, p, out); },
+        _ => {}
+    }
+}
+fn json_at<'a>(v: &'a mut serde_json::Value, p: &[String]) -> Option<&'a mut serde_json::Value> { let mut c = v; for k in p { c = match c { serde_json::Value::Object(o) => o.get_mut(k)?, serde_json::Value::Array(a) => a.get_mut(k.parse::<usize>().ok()?)?, _ => return None }; } Some(c) }
+
+/// the JSON of every data value of the document: against the model's writer, and (as written and damaged) against its reader
+fn json_values_vs_model(rep: &mut Report, store: &AnnotationStore, doc: &serde_json::Value, ctx: &Vec<String>) {
+    let sets = match doc.get("annotationsets").and_then(|x| x.as_array()) { Some(a) => a, None => return };
+    let live: Vec<_> = store.datasets().collect();
+    if sets.len() != live.len() { return; }
+    for (ds, j) in live.iter().zip(sets.iter()) {
+        let arr = match j.get("data").and_then(|x| x.as_array()) { Some(a) => a, None => continue };
+        let data: Vec<_> = ds.data().collect();
+        if arr.len() != data.len() { continue; }
+        for (d, dj) in data.iter().zip(arr.iter()) {
+            let vj = match dj.get("value") { Some(v) => v, None => continue };
+            let mut toks = vec![];
+            if js_tokens(vj, &mut toks).is_none() { continue; }
+            let mut spec = vec![];
+            if dvj_spec(d.value(), &mut spec).is_some() {
+                rep.count("json:value-write-vs-model");
+                rep.model_case_ctx(ctx.clone(), vec![format!("js wval {}", spec.join(" "))], vec![toks.join(" ")], "json-value-write");
+            }
+            let mut variants = vec![vj.clone()];
+            let mut ps = vec![]; json_paths(vj, vec![], &mut ps);
+            for p in ps.iter().take(12) {
+                let (parent, last) = p.split_at(p.len() - 1);
+                { let mut t = vj.clone(); if let Some(serde_json::Value::Object(o)) = json_at(&mut t, parent) { o.remove(&last[0]); variants.push(t); } }
+                { let mut t = vj.clone(); if let Some(x) = json_at(&mut t, p) { *x = match x { serde_json::Value::String(_) => serde_json::json!(7), serde_json::Value::Number(_) => serde_json::json!("7"), serde_json::Value::Bool(_) => serde_json::json!(0), serde_json::Value::Array(_) => serde_json::json!("x"), _ => serde_json::Value::Null }; variants.push(t); } }
+                { let mut t = vj.clone(); if let Some(x) = json_at(&mut t, p) { if let (serde_json::Value::String(s), true) = (&*x, last[0] == "@type") { *x = serde_json::json!(match s.as_str() { "Int" => "Float", "Float" => "Int", "String" => "Datetime", "Datetime" => "String", "Bool" => "Int", "Null" => "String", "List" => "String", _ => "Nonsense" }); variants.push(t); } } }
+            }
+            for v in variants {
+                let mut toks = vec![];
+                if js_tokens(&v, &mut toks).is_none() { continue; }
+                // (an integer beyond 2^53 read as a float is rounded by the float type: outside the model, which keeps literals)
+                if toks.iter().any(|t| t.strip_prefix('N').and_then(|n| n.parse::<i64>().ok()).map(|n| n.unsigned_abs() > (1u64 << 53)).unwrap_or(false)) && toks.iter().any(|t| *t == format!("S{}", hex("Float"))) { continue; }
+                let got = match guarded(std::panic::AssertUnwindSafe(|| serde_json::from_value::<DataValue>(v.clone()).map_err(|e| format!("{}", e)))) {
+                    Err(m) => format!("panic:{}", m.chars().take(60).collect::<String>()),
+                    Ok(Err(_)) => "err".to_string(),
+                    Ok(Ok(dv)) => { let mut sp = vec![]; match dvj_spec(&dv, &mut sp) { Some(()) => format!("ok {}", sp.join(" ")), None => continue } }
+                };
+                rep.count("json:value-read-vs-model");
+                rep.model_case_ctx(ctx.clone(), vec![format!("js rval {}", toks.join(" "))], vec![got], "json-value-read");
+            }
+        }
+    }
+}
+
 fn json_targets_vs_model(rep: &mut Report, store: &AnnotationStore, js: &str, ctx: &Vec<String>) {
     let doc: serde_json::Value = match serde_json::from_str(js) { Ok(v) => v, Err(_) => return };
+    json_values_vs_model(rep, store, &doc, ctx);
     let arr = match doc.get("annotations").and_then(|x| x.as_array()) { Some(a) => a, None => return };
     let anns: Vec<_> = store.annotations().collect();
     if arr.len() != anns.len() { return; }
